@@ -62,7 +62,7 @@ CHECKS = {
          "Every formula up to n nodes (and every accepted token sequence up to 5 tokens over the analysis alphabet) is analysed by the real code and by a collector walking the reference tree; set inclusion both ways, duplicates, refusals, the non-local variant and sufficiency on three data maps plus a runner without data map are checked on each; name sets that repeat or differ only in case in every order.",
          "Trusted: reference parser and collector. Pure assignment targets may or may not be reported.", "C10"),
  "C11": ("exhaustive exploration of synthesised signatures x argument lists against a partial conversion specification; every invocation recorded",
-         "Every signature in the family (reflect.FuncOf/MakeFunc; 18 parameter kinds incl. a type that merely implements context.Context) is called with every argument list up to n+2 arguments over 16 base and 22 extended argument kinds (integer range limits, non-finite numbers, a float32 midpoint, Go-typed slices, typed nil by name, aliased objects), with and without spread; invoked-exactly-once-or-not-at-all, received values, context identity, result normalisation and error propagation over all subsets of failing call sites are checked.",
+         "Every signature in the family (reflect.FuncOf/MakeFunc; 21 parameter kinds incl. unsigned integers and a type that merely implements context.Context) is called with every argument list up to n+2 arguments over 16 base and 50 extended argument kinds (integer range limits, non-finite numbers, a float32 midpoint, Go-typed slices and numbers, typed nil by name, aliased and address-sharing objects), with and without spread; invoked-exactly-once-or-not-at-all, received values, context identity, result normalisation and error propagation over all subsets of failing call sites are checked.",
          "Trusted: table written from the statement; unspecified cells only require no panic and at most one invocation.", "C11"),
  "C20": ("explicit-state exploration of runner operation histories in lock-step with a plain-map reference model: all histories to depth d unmerged, breadth-first with state merging and differential probes to depth 7+",
          "Every history over a 36-operation menu (incl. evaluations that fail in three ways) up to depth d is replayed on a fresh real runner and compared step by step with the model (results, gets, every caller-visible map); merged search adds depth and checks that a state reached two ways answers all probes alike; one operation repeated 25 000 / 120 000 times on one runner, then every read.",
